@@ -48,6 +48,23 @@ theorem open_eq :
 theorem check_eq :
     checkCombinationsT Ex.vk Ex.comms lcs qs evals proofs xis [7, 8] = .ok (true, [41]) := by decide
 
+/-! a history: combination opening, plain opening of the first two polynomials, batch opening -/
+def bqs : List (Query K) :=
+  [([112, 48], ([97], 5)), ([112, 49], ([97], 5)), ([112, 49], ([98], 9)), ([112, 50], ([98], 9))]
+def bevals : List ((LC.Label × K) × K) :=
+  [(([112, 48], 5), 86), (([112, 49], 5), 29), (([112, 49], 9), 85), (([112, 50], 9), 15)]
+def ops : List (Op K) :=
+  [.comb lcs qs evals, .single (trips.take 2) 6, .batch bqs bevals]
+def stream : List K := [11, 13, 17, 19, 23, 29, 31, 37, 41, 43, 47, 53, 59, 61, 67, 71, 73, 79, 83]
+def histProofs : List (List (KZG.Proof K)) :=
+  [[⟨72, some 87⟩, ⟨15, none⟩, ⟨22, none⟩], [⟨2, some 37⟩], [⟨78, some 75⟩, ⟨0, none⟩]]
+
+theorem prover_eq :
+    proverRun Ex.ck Ex.polys Ex.rands Ex.comms ops stream = .ok (histProofs, [79, 83]) := by decide
+theorem verifier_eq :
+    verifierRun Ex.vk Ex.comms ops histProofs [[7, 8], [], [9]] stream = .ok (true, [79, 83]) := by
+  decide
+
 end ExLC
 end Sonic
 end PCV
